@@ -131,6 +131,8 @@ package pipeline
 //@   loop 1 invariant calls == numTries && nerr == 0 && 0 <= numTries
 //@   loop 1 invariant exponentionalBackoff.MaxElapsedTime == 0 && exponentionalBackoff.Stop == -1
 //@   loop 1 invariant batch != nil ==> batch.events == old(batch.events) && batch.status == old(batch.status)
+//@   callee ExponentialBackOff.Reset()
+//@     requires recv.MaxElapsedTime == 0 && recv.Stop == -1
 //@   callee outFn(d, bt) (err)
 //@     pure
 //@     set calls := calls + 1
@@ -411,6 +413,11 @@ package pipeline
 
 // get (lock held by the caller): FIFO head, and the taken event becomes the stream's away event.
 
+// (Taking the only queued event leaves neither head nor tail: a stale tail would make the
+// next put link the new event behind an event that already belongs to a processor or to
+// the pool.  The list shape itself - every node before the tail has a successor - is a
+// reachability invariant over the heap and is not stated.)
+
 //@ func (*stream).get
 //@   requires held(s.mu)
 //@   option allow-exit yes
@@ -419,6 +426,8 @@ package pipeline
 //@   ensures result == old(s.first)
 //@   ensures result != nil ==> s.awaySeq == result.SeqID
 //@   ensures old(s.first) != nil && old(s.first) != old(s.last) ==> s.first == old(s.first.next)
+//@   ensures old(s.first) == old(s.last) ==> s.first == nil && s.last == nil
+//@   ensures old(s.first) != old(s.last) ==> s.last == old(s.last)
 //@   ensures s.isAttached == old(s.isAttached) && s.isDetaching == old(s.isDetaching)
 
 // tryDetach (lock held): the stream is released for another processor only when
